@@ -333,7 +333,9 @@ func genUnencodable(t *rapid.T) Case {
 	c := Case{Kind: "unencodable", Table: ctab.DrawSpec(t, "table", false, 3000)}
 	f, _ := ctab.Flatten(c.Table.Build())
 	// candidates: lower case, letters absent from the table, residues whose synonyms all have weight 0
-	cands := []string{"a", "m", "k", "l", "J", "B", "X", "Z", "U", "O", "1", " ", "-", "?"}
+	// (the non-ASCII ones share their low byte, or a case mapping, with an amino-acid letter: U+0141 / A, U+014B / K,
+	// U+044D / M, the Kelvin sign, long s, dotless i, full-width A; a lone high byte is not even a letter)
+	cands := []string{"a", "m", "k", "l", "J", "B", "X", "Z", "U", "O", "1", " ", "-", "?", "é", "\u0141", "\u014b", "\u044d", "\u212a", "\u017f", "\u0131", "\uff21", "\xc1", "\x00"}
 	for _, l := range []string{"*", "W", "M", "K", "C"} {
 		if !encodable(f, l) {
 			cands = append(cands, l, l, l)
